@@ -31,8 +31,13 @@ func drawC01(t *rapid.T) polCase {
 	prof := []gen.Profile{gen.NamesOnly, gen.NamesOnly, gen.NamesOnly, gen.Small, gen.Degenerate, gen.Long}[rapid.IntRange(0, 5).Draw(t, "profile")]
 	p := gen.Policy(t, arch, gen.Opts{Profile: prof})
 	c := polCase{Policy: p, Seed: rapid.Uint64().Draw(t, "seed"), Extra: drawExtraEvents(t, &p, 3)}
-	if rapid.IntRange(0, 5).Draw(t, "prevArch") == 0 {
+	switch rapid.IntRange(0, 11).Draw(t, "prevArch") {
+	case 0, 1:
 		c.Prev = drawArch(t)
+	case 2, 3:
+		c.Prev = "edited"
+	case 4:
+		c.Prev = "copy"
 	}
 	return c
 }
@@ -71,7 +76,12 @@ func checkC01(raw json.RawMessage) (ev.Result, error) {
 	}
 	st := &evalStats{classes: map[string]bool{}}
 	policyShape(p, cp, st)
-	if c.Prev != "" && c.Prev != p.Arch {
+	switch {
+	case c.Prev == "edited":
+		st.class("value-held-another-policy-before")
+	case c.Prev == "copy":
+		st.class("architecture-given-by-a-copy-of-the-info-value")
+	case c.Prev != "" && c.Prev != p.Arch:
 		st.class("value-compiled-for-another-architecture-before")
 	}
 	evs := gen.Events(p, c.Seed, gen.EventOpts{Own: true, PerNr: 2, MaxNrs: 120, Consts: cp.consts})
@@ -153,7 +163,14 @@ func drawC03(t *rapid.T) polCase {
 	arch := drawArch(t)
 	prof := []gen.Profile{gen.CondHeavy, gen.CondHeavy, gen.Small, gen.Long}[rapid.IntRange(0, 3).Draw(t, "profile")]
 	p := gen.Policy(t, arch, gen.Opts{Profile: prof})
-	return polCase{Policy: p, Seed: rapid.Uint64().Draw(t, "seed"), Extra: drawExtraEvents(t, &p, 2)}
+	c := polCase{Policy: p, Seed: rapid.Uint64().Draw(t, "seed"), Extra: drawExtraEvents(t, &p, 2)}
+	switch rapid.IntRange(0, 9).Draw(t, "variant") {
+	case 0:
+		c.OpCase = rapid.Uint64Range(1, 1<<62).Draw(t, "opCase")
+	case 1:
+		c.Prev = "edited"
+	}
+	return c
 }
 
 func checkC03(raw json.RawMessage) (ev.Result, error) {
@@ -162,7 +179,11 @@ func checkC03(raw json.RawMessage) (ev.Result, error) {
 		return ev.Result{}, err
 	}
 	p := &c.Policy
-	cp, cerr, pan := compilePolicy(p)
+	toCompile := p
+	if c.OpCase != 0 {
+		toCompile = mangleOps(p, c.OpCase)
+	}
+	cp, cerr, pan := compilePolicyAfter(toCompile, c.Prev)
 	if pan != nil {
 		return ev.Result{}, fmt.Errorf("Assemble panicked: %v", pan)
 	}
@@ -175,6 +196,12 @@ func checkC03(raw json.RawMessage) (ev.Result, error) {
 	}
 	st := &evalStats{classes: map[string]bool{}}
 	policyShape(p, cp, st)
+	if c.OpCase != 0 {
+		st.class("operation-names-in-another-letter-case-accepted")
+	}
+	if c.Prev == "edited" {
+		st.class("value-held-another-policy-before")
+	}
 	// shape classes of the conditional part
 	perName := map[string]int{}
 	groupsOf := map[string]map[int]bool{}
@@ -281,7 +308,16 @@ func drawC04(t *rapid.T) polCase {
 	if prof == gen.Edge255 {
 		tuneArchJump(&p, rapid.IntRange(250, 260).Draw(t, "archJumpTarget"), rapid.Uint64().Draw(t, "tuneSeed"))
 	}
-	return polCase{Policy: p, Seed: rapid.Uint64().Draw(t, "seed")}
+	c := polCase{Policy: p, Seed: rapid.Uint64().Draw(t, "seed")}
+	switch rapid.IntRange(0, 9).Draw(t, "variant") {
+	case 0:
+		c.Prev = "copy"
+	case 1:
+		c.Prev = "edited"
+	case 2:
+		c.Prev = drawArch(t) // compiled for another architecture first (whatever is built once per process is built for that one)
+	}
+	return c
 }
 
 // archJumpDistance reads the distance of the architecture jump off a compiled program.
@@ -361,7 +397,7 @@ func checkC04(raw json.RawMessage) (ev.Result, error) {
 		return ev.Result{}, err
 	}
 	p := &c.Policy
-	cp, cerr, pan := compilePolicy(p)
+	cp, cerr, pan := compilePolicyAfter(p, c.Prev)
 	if pan != nil {
 		return ev.Result{}, fmt.Errorf("Assemble panicked: %v", pan)
 	}
@@ -374,6 +410,14 @@ func checkC04(raw json.RawMessage) (ev.Result, error) {
 	}
 	st := &evalStats{classes: map[string]bool{}}
 	policyShape(p, cp, st)
+	switch {
+	case c.Prev == "copy":
+		st.class("architecture-given-by-a-copy-of-the-info-value")
+	case c.Prev == "edited":
+		st.class("value-held-another-policy-before")
+	case c.Prev != "" && c.Prev != p.Arch:
+		st.class("value-compiled-for-another-architecture-before")
+	}
 	// distance of the architecture jump as visible in the program: instruction 1
 	// is either "jeq/jne arch" with an 8-bit skip or followed by an unconditional jump.
 	if len(cp.raw) > 2 {
